@@ -72,7 +72,7 @@ def shards(tier):
 
 
 def timeout(tier):
-    return 420 if tier == "quick" else 2400
+    return 900 if tier == "quick" else 5400
 
 
 ZONES = ["[+0:UTC]", "[-5:EST]", "[+5.30:IST]", "[-11]", ""]
